@@ -28,20 +28,238 @@ theorem parse_mono_step (f : Nat)
     rw [parseCond] at h ⊢
     split at h
     · simp at h
-    · rename_i c r1 hb
+    · rename_i c r0 hb
       rw [ihB _ _ _ hb]
       simp only []
       split at h
-      · rename_i t r3 ht
-        rw [ihC _ _ ht]
-        simp only []
+      · exact h
+      · rename_i t r1
         split at h
-        · rename_i e r4 he
-          rw [ihC _ _ he]
+        · rename_i ht
+          subst ht
+          simp only [if_true]
+          split at h
+          · simp at h
+          · rename_i tt r2 hc
+            rw [ihC _ _ hc]
+            simp only []
+            split at h
+            · simp at h
+            · rename_i t2 r3
+              split at h
+              · rename_i ht2
+                subst ht2
+                simp only [if_true]
+                split at h
+                · simp at h
+                · rename_i e r4 he
+                  rw [ihC _ _ he]
+                  exact h
+              · simp at h
+        · rename_i ht
+          simp only [ht, if_false]
           exact h
+  · intro m ts r h
+    rw [parseBin] at h ⊢
+    split at h
+    · simp at h
+    · rename_i l r0 hu
+      rw [ihU _ _ hu]
+      exact ihL _ _ _ _ h
+  · intro m l ts r h
+    cases ts with
+    | nil => rw [loopBin] at h ⊢; exact h
+    | cons t r0 =>
+      rw [loopBin] at h ⊢
+      split at h
+      · exact h
+      · rename_i op lv hb
+        split at h
+        · rename_i hm
+          simp only [hm, if_true]
+          split at h
+          · simp at h
+          · rename_i rhs r' hp
+            rw [ihB _ _ _ hp]
+            exact ihL _ _ _ _ h
+        · rename_i hm
+          simp only [hm, if_false]
+          exact h
+  · intro ts r h
+    cases ts with
+    | nil => rw [parseUnary] at h; simp at h
+    | cons t r0 =>
+      rw [parseUnary] at h ⊢
+      split at h
+      · rename_i ht
+        subst ht
+        simp only [if_true]
+        split at h
         · simp at h
+        · rename_i a r' hu
+          rw [ihU _ _ hu]
+          exact h
+      · rename_i ht1
+        split at h
+        · rename_i ht
+          subst ht
+          simp only [if_true, ht1, if_false]
+          split at h
+          · simp at h
+          · rename_i a r' hu
+            rw [ihU _ _ hu]
+            exact h
+        · rename_i ht2
+          split at h
+          · rename_i ht
+            subst ht
+            simp only [if_true, ht1, ht2, if_false]
+            split at h
+            · simp at h
+            · rename_i e r1 hc
+              rw [ihC _ _ hc]
+              simp only []
+              split at h
+              · simp at h
+              · rename_i t1 r2
+                split at h
+                · rename_i ht
+                  subst ht
+                  simp only [if_true]
+                  exact ihP _ _ _ h
+                · simp at h
+          · rename_i ht3
+            simp only [ht1, ht2, ht3, if_false]
+            split at h
+            · simp at h
+            · exact ihP _ _ _ h
+  · intro b ts r h
+    cases ts with
+    | nil => rw [parsePost] at h ⊢; exact h
+    | cons t r0 =>
+      rw [parsePost] at h ⊢
+      split at h
+      · rename_i ht
+        subst ht
+        simp only [if_true]
+        split at h
+        · simp at h
+        · rename_i i r1 hc
+          rw [ihC _ _ hc]
+          simp only []
+          split at h
+          · simp at h
+          · rename_i t1 r2
+            split at h
+            · rename_i ht
+              subst ht
+              simp only [if_true]
+              exact ihP _ _ _ h
+            · simp at h
+      · rename_i ht1
+        split at h
+        · rename_i ht
+          subst ht
+          simp only [if_true, ht1, if_false]
+          split at h
+          · simp at h
+          · rename_i name hn
+            split at h
+            · simp at h
+            · rename_i t1 r1
+              split at h
+              · rename_i ht
+                subst ht
+                simp only [if_true]
+                exact ihP _ _ _ h
+              · rename_i ht
+                simp only [ht, if_false]
+                split at h
+                · simp at h
+                · rename_i args r' ha
+                  rw [ihA _ _ ha]
+                  exact ihP _ _ _ h
+        · rename_i ht2
+          simp only [ht1, ht2, if_false]
+          exact h
+  · intro ts r h
+    rw [parseArgs] at h ⊢
+    split at h
+    · simp at h
+    · rename_i e r0 hc
+      rw [ihC _ _ hc]
+      simp only []
+      split at h
       · simp at h
-    · rename_i c r hb hne
-      rw [ihB _ _ _ hb]
-      sorry
-  all_goals sorry
+      · rename_i t r1
+        split at h
+        · rename_i ht
+          subst ht
+          simp only [if_true]
+          split at h
+          · simp at h
+          · rename_i es r' ha
+            rw [ihA _ _ ha]
+            exact h
+        · rename_i ht1
+          simp only [ht1, if_false]
+          exact h
+
+theorem parse_mono_all : ∀ f,
+    (∀ ts r, parseCond f ts = some r → parseCond (f + 1) ts = some r)
+    ∧ (∀ m ts r, parseBin f m ts = some r → parseBin (f + 1) m ts = some r)
+    ∧ (∀ m l ts r, loopBin f m l ts = some r → loopBin (f + 1) m l ts = some r)
+    ∧ (∀ ts r, parseUnary f ts = some r → parseUnary (f + 1) ts = some r)
+    ∧ (∀ b ts r, parsePost f b ts = some r → parsePost (f + 1) b ts = some r)
+    ∧ (∀ ts r, parseArgs f ts = some r → parseArgs (f + 1) ts = some r) := by
+  intro f
+  induction f with
+  | zero =>
+    refine ⟨?_, ?_, ?_, ?_, ?_, ?_⟩
+    · intro ts r h; simp [parseCond] at h
+    · intro m ts r h; simp [parseBin] at h
+    · intro m l ts r h; simp [loopBin] at h
+    · intro ts r h; simp [parseUnary] at h
+    · intro b ts r h; simp [parsePost] at h
+    · intro ts r h; simp [parseArgs] at h
+  | succ f ih =>
+    obtain ⟨a, b, c, d, e, g⟩ := ih
+    exact parse_mono_step f a b c d e g
+
+theorem parseCond_mono {f f' ts r} (h : parseCond f ts = some r) (hle : f ≤ f') :
+    parseCond f' ts = some r := by
+  induction hle with
+  | refl => exact h
+  | step _ ih => exact (parse_mono_all _).1 _ _ ih
+
+theorem parseBin_mono {f f' m ts r} (h : parseBin f m ts = some r) (hle : f ≤ f') :
+    parseBin f' m ts = some r := by
+  induction hle with
+  | refl => exact h
+  | step _ ih => exact (parse_mono_all _).2.1 _ _ _ ih
+
+theorem loopBin_mono {f f' m l ts r} (h : loopBin f m l ts = some r) (hle : f ≤ f') :
+    loopBin f' m l ts = some r := by
+  induction hle with
+  | refl => exact h
+  | step _ ih => exact (parse_mono_all _).2.2.1 _ _ _ _ ih
+
+theorem parseUnary_mono {f f' ts r} (h : parseUnary f ts = some r) (hle : f ≤ f') :
+    parseUnary f' ts = some r := by
+  induction hle with
+  | refl => exact h
+  | step _ ih => exact (parse_mono_all _).2.2.2.1 _ _ ih
+
+theorem parsePost_mono {f f' b ts r} (h : parsePost f b ts = some r) (hle : f ≤ f') :
+    parsePost f' b ts = some r := by
+  induction hle with
+  | refl => exact h
+  | step _ ih => exact (parse_mono_all _).2.2.2.2.1 _ _ _ ih
+
+theorem parseArgs_mono {f f' ts r} (h : parseArgs f ts = some r) (hle : f ≤ f') :
+    parseArgs f' ts = some r := by
+  induction hle with
+  | refl => exact h
+  | step _ ih => exact (parse_mono_all _).2.2.2.2.2 _ _ ih
+
+end Ffcx.LNodes.Fmt
